@@ -27,6 +27,13 @@ Definition compiler_compile_fn : fdef :=
      f_gen := false |}.
 Definition compiler_compile_fn_defaults : list expr := [(XConst PNone)].
 
+(* beanquery.Connection.__init__: the leading `self.<attr> = ...` statements (the per-connection state; what follows attaches a data source) *)
+Definition connection_init_state : fdef :=
+  {| f_params := ["self"; "dsn"];
+     f_body := [(SAssign (TSelf "tables") (XPrim "builtins.dict" [(XList [(XTuple [(XConst (PV (VStr []))); (XCall (XConst (PRef 3)) [] None)])])])); (SAssign (TSelf "options") (XPrim "builtins.dict" [(XList [])])); (SAssign (TSelf "errors") (XList []))];
+     f_gen := false |}.
+Definition connection_init_state_defaults : list expr := [(XConst PNone)].
+
 (* beanquery.Connection.execute *)
 Definition connection_execute : fdef :=
   {| f_params := ["self"; "query"; "params"];
@@ -37,20 +44,20 @@ Definition connection_execute_defaults : list expr := [(XConst PNone)].
 (* beanquery.Connection.cursor *)
 Definition connection_cursor : fdef :=
   {| f_params := ["self"];
-     f_body := [(SReturn (Some (XCall (XConst (PRef 3)) [(XName "self")] None)))];
+     f_body := [(SReturn (Some (XCall (XConst (PRef 4)) [(XName "self")] None)))];
      f_gen := false |}.
 
 (* beanquery.Connection.parse *)
 Definition connection_parse : fdef :=
   {| f_params := ["self"; "query"];
-     f_body := [(SReturn (Some (XCall (XConst (PRef 4)) [(XName "query")] None)))];
+     f_body := [(SReturn (Some (XCall (XConst (PRef 5)) [(XName "query")] None)))];
      f_gen := false |}.
 
 (* beanquery.Connection.compile *)
 Definition connection_compile : fdef :=
   {| f_params := ["self"; "query"];
-     f_body := [(SReturn (Some (XCall (XConst (PRef 5)) [(XName "self"); (XName "query")] None)))];
+     f_body := [(SReturn (Some (XCall (XConst (PRef 6)) [(XName "self"); (XName "query")] None)))];
      f_gen := false |}.
 
 Definition refs : list (nat * string) :=
-  [(0%nat, "beanquery.compiler.check_subqueries"); (1%nat, "beanquery.query_compile.EvalConstant"); (2%nat, "beanquery.compiler.Compiler"); (3%nat, "beanquery.cursor.Cursor"); (4%nat, "beanquery.parser.parse"); (5%nat, "beanquery.compiler.compile")].
+  [(0%nat, "beanquery.compiler.check_subqueries"); (1%nat, "beanquery.query_compile.EvalConstant"); (2%nat, "beanquery.compiler.Compiler"); (3%nat, "beanquery.tables.NullTable"); (4%nat, "beanquery.cursor.Cursor"); (5%nat, "beanquery.parser.parse"); (6%nat, "beanquery.compiler.compile")].
